@@ -319,6 +319,92 @@ def r7(ctx):
     ctx.floor("C12.R7", 2)
 
 
+def r8(ctx):
+    """the last hop to an API subscriber (engine::LiveEvent::from_replica_event, used by Engine::subscribe for every replica
+    event) evaluated per event kind: a local insert becomes InsertLocal carrying that entry; a remote insert becomes InsertRemote
+    carrying that entry, the providing peer (the key parsed from the event's `from`) and the local content status of *that*
+    entry's hash; one API event per replica event, none invented, none swallowed (a peer id that is not a key is reported)"""
+    from . import feval as E, coll
+    f = ctx.facts
+    FRE = "engine::LiveEvent::from_replica_event"
+    b = f.body(FRE + "::{closure#0}")
+    ctx.touch(b)
+    LE = "engine::LiveEvent"
+    for evk, key_ok in (("LocalInsert", 1), ("RemoteInsert", 1), ("RemoteInsert", 0)):
+        C = coll.Collections(f)
+        log = []
+
+        def oracle(kind, name, payload, site):
+            if kind == "await":
+                if str(name).startswith("fut:status-of"):
+                    return E.Tok("status-of(%s)" % str(name)[len("fut:status-of("):-1])
+                return None
+            if kind != "call":
+                return None
+            t, args, it = payload
+            names = [it.tokname(a).strip("&*") for a in args]
+            if name == "from_bytes":
+                return E.Ok(E.Tok("key-of(%s)" % names[0])) if key_ok else E.Err(E.Tok("not-a-key"))
+            if name in ("into", "from") and len(args) == 1:
+                return E.Tok(names[0])
+            if name == "content_hash":
+                return E.Tok("hash(%s)" % names[0])
+            if name in ("call", "call_once", "call_mut") and names and names[0] == "status-cb":
+                inner = it.resolve(args[1])
+                arg = it.tokname(inner[1][0]) if inner is not None and inner[0] == "tuple" and inner[1] else "?"
+                log.append(("status-cb", arg))
+                return E.Tok("fut:status-of(%s)" % arg)
+            if name in ("deref", "as_ref") and names and names[0] == "status-cb":
+                return args[0]
+            return C.handle(kind, name, payload, site)
+        if evk == "LocalInsert":
+            ev = E.variant(f, "sync::Event", "LocalInsert", namespace=E.Tok("ns"), entry=E.Tok("the-entry"))
+        else:
+            ev = E.variant(f, "sync::Event", "RemoteInsert", namespace=E.Tok("ns"), entry=E.Tok("the-entry"), **{"from": E.Tok("peer-bytes")}, should_download=E.Tok("flag"), remote_content_status=E.Tok("remote-status"))
+        key = "api-event[%s%s]" % (evk, "" if key_ok else ",peer-id-not-a-key")
+        try:
+            ret, hp, evs = E.run_async(f, FRE, [ev, E.href("cb")], {"cb": E.Tok("status-cb")}, oracle)
+            it2 = E.Interp(f)
+            it2.heap = hp
+            r = it2.resolve(ret)
+            got = E.describe(r, f)
+            fields = None
+            if r is not None and r[0] == "adt" and r[1] == E.RESULT and r[2] == 0:
+                v = it2.resolve(r[3][0])
+                var = f.adt(LE)["variants"][v[2]]
+                fields = (var["name"], {fd["name"]: E.describe(it2.resolve(v[3].get(i)), f) for i, fd in enumerate(var["fields"])})
+        except E.Unsupported as e:
+            ctx.bad("C12.R8", FRE, key, "UNSUPPORTED-FORM: %s" % e, b.sp)
+            continue
+        if evk == "LocalInsert":
+            ok = fields == ("InsertLocal", {"entry": "the-entry"})
+            spec = "InsertLocal { that entry }"
+        elif key_ok:
+            ok = fields == ("InsertRemote", {"from": "key-of(peer-bytes)", "entry": "the-entry", "content_status": "status-of(hash(the-entry))"})
+            spec = "InsertRemote { from: the providing peer, that entry, the local status of that entry's content }"
+        else:
+            ok = got.startswith("Err")
+            spec = "a reported error"
+        ctx.check(ok, "C12.R8", FRE, key, "returns %s %s; spec %s" % (got[:60], fields, spec), b.sp)
+    # Engine::subscribe: the replica's events reach the caller through from_replica_event, for the document asked for
+    sub = "engine::Engine::subscribe"
+    fam = f.family(sub + "::{closure#0}") if hasattr(f, "family") else []
+    calls = [(x, t) for x in fam for _, t in x.calls() if callee_matches(t, r"engine::LiveEvent::from_replica_event$")]
+    subs = [(x, t) for x in fam for _, t in x.calls() if callee_matches(t, r"actor::SyncHandle::subscribe$")]
+    ctx.touch(*fam)
+    ok = len(calls) == 1 and len(subs) == 1
+    det = "%d conversions through from_replica_event, %d subscriptions at the store actor" % (len(calls), len(subs))
+    if ok:
+        ns = {origin_summary(o) for o in trace(subs[0][0], subs[0][1]["a"][1])}
+        ok = ns in ({"upvar:namespace"}, {"arg:namespace"})
+        det += "; subscribed document: %s" % sorted(ns)
+    ctx.check(ok, "C12.R8", sub, "replica-events-converted-one-to-one", det, f.body(sub).sp)
+    dropping = sorted({t["f"].get("name") for x in fam for _, t in x.calls() if t["f"].get("name") in ("skip", "take", "filter", "filter_map", "step_by", "skip_while", "take_while", "take_until", "nth", "last", "dedup", "chunks", "ready_chunks", "peekable")
+                       and not mir.is_noise(t.get("x"))})
+    ctx.check(not dropping, "C12.R8", sub, "no-event-dropping-adaptor", "stream adaptors that drop, cut or merge elements between the subscription channels and the caller: %s; spec: none (one API event per event)" % dropping, f.body(sub).sp)
+    ctx.floor("C12.R8", 5)
+
+
 def run(ctx):
     ctx.run_rule("C12.R1", r1)
     ctx.run_rule("C12.R2", r2)
@@ -327,3 +413,4 @@ def run(ctx):
     ctx.run_rule("C12.R5", r5)
     ctx.run_rule("C12.R6", r6)
     ctx.run_rule("C12.R7", r7)
+    ctx.run_rule("C12.R8", r8)
